@@ -58,6 +58,13 @@ def py_namespace() -> dict:
     return {"i64": ident, "i32": ident, "i16": ident, "u8": ident, "__builtins__": {"bool": symx.s_bool, "int": symx.s_int, "abs": abs, "range": s_range, "True": True, "False": False, "ZeroDivisionError": ZeroDivisionError, "ValueError": ValueError, "OverflowError": OverflowError}}
 
 
+def _record(c: Ctx, n_cex: int, found: list, p: "Prog", what: str) -> None:
+    """A failed obligation is a finding only if the solver produced a counterexample; `unknown` is
+    counted by Ctx.check as inconclusive and leaves no counterexample."""
+    if len(c.cex) > n_cex:
+        found.append((p, c.cex[-1].model, what))
+
+
 def check_program(p: Prog, fn_ir: Any, found: list, stats: dict, timeout_ms: int = 30000, max_paths: int = 3000) -> Ctx:
     ns = py_namespace()
     src = "\n".join(l for l in p.src.splitlines() if not l.startswith("from mypy_extensions"))
@@ -67,6 +74,7 @@ def check_program(p: Prog, fn_ir: Any, found: list, stats: dict, timeout_ms: int
 
     def body(c: Ctx) -> None:
         m = Machine(c)
+        n_cex = len(c.cex)
         words = []
         vals = []
         fits_all = []
@@ -127,7 +135,7 @@ def check_program(p: Prog, fn_ir: Any, found: list, stats: dict, timeout_ms: int
                 # allowed only when the exact result does not fit (documented OverflowError)
                 ok = c.check(z3.Not(fits), label + " (exception only when the exact result does not fit)")
                 if not ok:
-                    found.append((p, c.cex[-1].model, f"compiled raises {comp[1]} although the exact result fits"))
+                    _record(c, n_cex, found, p, f"compiled raises {comp[1]} although the exact result fits")
                 return
             w = comp[1]
             if p.ret == "u8":
@@ -136,7 +144,7 @@ def check_program(p: Prog, fn_ir: Any, found: list, stats: dict, timeout_ms: int
                 goal = z3.Implies(fits, w == svz)
             ok = c.check(goal, label)
             if not ok:
-                found.append((p, c.cex[-1].model, "compiled value differs from the exact result"))
+                _record(c, n_cex, found, p, "compiled value differs from the exact result")
             return
         if comp[0] == "raises":
             c.stats["assert_queries"] += 1
@@ -152,7 +160,7 @@ def check_program(p: Prog, fn_ir: Any, found: list, stats: dict, timeout_ms: int
             goal = z3.And(m.val(w) == svz, z3.If(fits, w == 2 * svz, w % 2 != 0))
         ok = c.check(goal, label)
         if not ok:
-            found.append((p, c.cex[-1].model, "compiled value differs from the interpreter's"))
+            _record(c, n_cex, found, p, "compiled value differs from the interpreter's")
 
     try:
         ctx.explore(body)
